@@ -17,7 +17,10 @@ Pct(u) == RandomElement(1..100)   \* NB: an operator *with* a parameter: TLC eva
 NsNamePool     == {"gtsam", "ns1", "ns2", "inner", "a", "b", "gtsam_unstable", "ab"}   \* some names are prefixes of others
 ClassNamePool  == {"A", "B", "Pose3", "Test", "MyFactor", "T1", "Value", "Klass"}
 ParamPool      == {"T", "U", "POSE", "Va"}
-CustomPool     == {"A", "B", "Pose3", "Test", "Vector", "Matrix", "string", "Point3", "Type", "Value", "T1", "Key"}
+CustomPool     == {"A", "B", "Pose3", "Test", "Vector", "Matrix", "string", "Point3", "Type", "Value", "T1", "Key",
+                   \* identifiers that BEGIN with a keyword or basic type of the dialect (word boundaries)
+                   "constraint", "const_iterator", "doubled", "integer", "boolean", "voidptr", "stringy", "This_", "virtuality",
+                   "classy", "staticT", "enumerated", "templated", "typedefs", "namespaced", "size_type", "charT"}
 TemplNamePool  == {<<"std", "vector">>, <<"FastSet">>, <<"gtsam", "Foo">>, <<"std", "map">>, <<"Tpl">>}
 NsPathPool     == {<<>>, <<"gtsam">>, <<"ns1", "inner">>, <<"std">>, <<"a", "b", "c">>, <<"Tools">>, <<"gtsam", "Uv">>,
                    <<"POSEs">>}   \* some namespaces begin with a parameter's spelling
@@ -26,7 +29,7 @@ MethodNamePool == {"f", "get", "print", "insert", "setValue", "test", "type", "l
                    "templatedMethod", "svg", "update"}
 StaticNamePool == {"Create", "create", "Identity", "global", "from", "g"}
 FuncNamePool   == {"fun", "load2D", "print", "lambda", "aGlobalFunction", "add", "tmpl"}
-ArgNamePool    == {"x", "y", "key", "value", "other", "t", "pose", "s", "n"}
+ArgNamePool    == {"x", "y", "key", "value", "other", "t", "pose", "s", "n", "constant", "intx", "thisOne"}
 VarNamePool    == {"kGravity", "seed", "name", "status", "kMax"}
 EnumNamePool   == {"Kind", "Color", "Verbosity", "Status"}
 EnumeratorPool == {"Red", "Green", "Blue", "SILENT", "VALID", "Dog", "Cat", "None_"}
@@ -157,7 +160,7 @@ RandTmpl(ctx, withLists) ==
                 ELSE IF Mex /\ CallArgs = {} THEN <<>>
                 ELSE IF Call /\ CallArgs # {} THEN RandDistinct(CallArgs, Pick(1..(IF Cardinality(CallArgs) > 2 THEN 2 ELSE Cardinality(CallArgs))))
                 ELSE IF Exec THEN RandDistinct(ExecArgs, Pick(1..3))            \* (a repeated argument would instantiate the same class twice)
-                ELSE [j \in 1..Pick(1..3) |-> RandTypename(1)]
+                ELSE [j \in 1..Pick(1..3) |-> RandTypename(IF Pct(0) <= 25 THEN 2 ELSE 1)]      \* (sometimes an argument nested two levels deep)
   IN IF avail = {} THEN <<>>
      ELSE IF n = 1 THEN <<TP(p1, lst(1))>> ELSE <<TP(p1, lst(1)), TP(p2, lst(2))>>
 
